@@ -18,6 +18,7 @@ fn main() {
     );
     let mut cw = CaseWriter::new("RV.Corr.C12_run RV.Model.C12_Track", "check");
     let alpha = Alphabet::new();
+    run_boundary(&alpha, &mut report, &mut cw);
     let root = Rng::new(args.seed);
     let cfg = GenCfg {
         max_len: 60, w_get: 18, w_set: 18, w_remove: 12, w_scan_keys: 10, w_drain: 8, w_scan_sorted: 10, w_info: 3,
